@@ -59,8 +59,8 @@ def _ki(name, bounded=None, tier='thorough', timeout=1500):
     return d
 _SLB = '2 inserted nodes with CONCRETE tower heights (this instance), symbolic distinct members (u8) and scores (f64, non-NaN); then one removal; unwind 34'
 # Each in-place instance costs 10-25 minutes and 10-20 GB in CBMC. The thorough tier runs four removal instances (both removal positions for
-# the lowest and for the highest pair of tower heights) and two query instances, two at a time (65 minutes measured with the 1/1 pair cut off
-# at 1500 s and recorded as unexplored; that pair now gets 2400 s, so up to 80 minutes); the remaining five are kept
+# the lowest and for the highest pair of tower heights) and two query instances, two at a time (79 minutes measured, all six instances explored: 1250-1310 s each, the 1/1 pair 2110-2120 s
+# within its 2400 s limit); the remaining five are kept
 # under tier 'exhaustive', which no registered command runs (VERIF_TIER=exhaustive ./check C04 runs them all).
 _SL_THOROUGH_RM = {('00', 'first'), ('00', 'second'), ('11', 'first'), ('11', 'second')}
 _SL_THOROUGH_Q = {'00', '10'}
@@ -169,7 +169,7 @@ PROPS = {
     },
     'C15': {
         'level': 'proof',
-        'verus': [{'group': 'shard_zsets', 'units': ['xdel', 'xtrim', 'xrange', 'xrevrange', 'xlen', 'xread_step']}, {'group': 'c16_pel', 'units': ['data_add_with_id', 'stream_trim_by_count', 'stream_trim_by_min_id', 'stream_delete', 'data_range', 'data_range_after', 'stream_range', 'stream_range_after', 'stream_len', 'sid_new', 'sid_min', 'sid_max', 'sid_parse_u64_fast']}, {'group': 'cmd_groups', 'units': ['xrange_args', 'xrevrange_bounds', 'xadd_fields', 'xread_pairs']}],
+        'verus': [{'group': 'shard_zsets', 'units': ['xdel', 'xtrim', 'xrange', 'xrevrange', 'xlen', 'xread_step']}, {'group': 'c16_pel', 'units': ['data_add_with_id', 'stream_trim_by_count', 'stream_trim_by_min_id', 'stream_delete', 'data_range', 'data_range_after', 'stream_range', 'stream_range_after', 'stream_len', 'sid_new', 'sid_min', 'sid_max', 'sid_parse_u64_fast']}, {'group': 'cmd_groups', 'units': ['xrange_args', 'xrevrange_bounds', 'xadd_fields', 'xread_pairs', 'xadd_explicit_id']}],
         'kani': STREAM_KANI,
         'explanation': 'ID generation (complete Kani proof over full u64 domains), ID packing/order (complete); StreamData::range (XRANGE / XREVRANGE) and StreamData::range_after (XREAD / XREADGROUP cursor read) proved in Verus against window contracts for all stream contents, bounds and counts; explicit-ID admission (bounded stand-in, not counted)',
     },
